@@ -784,6 +784,8 @@ def run_defaults(case, o: Oracle) -> None:
         if area == "tz":
             want = b"".join(struct.pack("<I", v & 0xFFFFFFFF) for v in m.presets.values())
             o.check("readback", data == want, "tz_defaults:" + name, "%s: default export differs from the preset file" % (t,))
+        if name == "template" and cfg is not None and area not in ("tz",) and m.clean:
+            _template_readback(m, _settings_of(m, cfg), data, o)
         if data in done:
             continue  # same bytes as the template-loaded object: the chain below is a function of the bytes
         done[data] = name
@@ -820,6 +822,33 @@ def run_defaults(case, o: Oracle) -> None:
             _check_computed(m, data, None, o, "template")
             if full:
                 _pfr_seal_and_rotkh(m, obj, data, o)
+
+
+def _template_readback(m: Model, sett: dict, data: bytes, o: Oracle) -> None:
+    """The values the template shows are the values of the binary exported from it (bit positions from the specification)."""
+    for r in m.regs:
+        if r.reserved or r.name not in sett or id(r) in m.group_of or r.offset + r.nbytes > len(data):
+            continue
+        entry = sett[r.name]
+        try:
+            if isinstance(entry, dict):
+                names = [b.name for b in r.bitfields]
+                for b in r.named_bitfields():
+                    if b.name in entry and names.count(b.name) == 1 and b.uid not in m.computed_bf(r):
+                        want = _cfg_int(entry[b.name], b.enums) >> b.shift
+                        got = regspec.field_bits(data, r.offset, r.nbytes, b.offset, b.width)
+                        if got != want:
+                            o.fail("readback", "template_bitfield", "%s: template shows %s.%s = %r, the binary exported from it holds 0x%x" % (m.t, r.name, b.name, entry[b.name], got))
+                            return
+            else:
+                want = _cfg_int(entry, ())
+                got = regspec.reg_int(data, r.offset, r.nbytes)
+                if got != want:
+                    o.fail("readback", "template_register", "%s: template shows %s = %r, the binary exported from it holds 0x%x" % (m.t, r.name, entry, got))
+                    return
+        except ValueError:
+            o.fail("readback", "template_value_unreadable", "%s: template value of %s is neither a number nor an enumeration name: %r" % (m.t, r.name, entry))
+            return
 
 
 _XMCD_IFACE = {"flexspi_ram": 0, "xspi_ram": 0, "semc_sdram": 1}
